@@ -33,17 +33,20 @@ let () = iter_lines (fun line ->
       t := ts.(side);
       let k0 = op.[0] in
       let arg = String.sub op 1 (String.length op - 1) in
-      let (a1, a2, na) =
+      let (a1, a2, a3, na) =
         match String.split_on_char ':' arg with
-        | [x] when x <> "" -> (try (int_of_string x, 0, 1) with _ -> (0, 0, 0))
-        | [x; y] -> (try (int_of_string x, int_of_string y, 2) with _ -> (0, 0, 0))
-        | _ -> (0, 0, 0) in
+        | [x] when x <> "" -> (try (int_of_string x, 0, 0, 1) with _ -> (0, 0, 0, 0))
+        | [x; y] -> (try (int_of_string x, int_of_string y, 0, 2) with _ -> (0, 0, 0, 0))
+        | [x; y; z] -> (try (int_of_string x, int_of_string y, int_of_string z, 3) with _ -> (0, 0, 0, 0))
+        | _ -> (0, 0, 0, 0) in
+      (* index arguments: negative = counted from the end (-1 = last valid position), as in harness.cpp *)
+      let ix a n = if a < 0 then n - (min n (-a)) else a mod n in
       match k0 with
       | 'i' -> do_insert "I" a1
       | 'a' ->
         let l = List.map zi (contents !(!t)) in
         let n = List.length l in
-        let h = min a1 n in
+        let h = if a1 < 0 then ix a1 (n + 1) else min a1 n in
         let k = a2 in
         let right = (h = 0 || ordered (List.nth l (h - 1)) k) && (h = n || ordered k (List.nth l h)) in
         if not right then do_insert "A" k
@@ -70,7 +73,7 @@ let () = iter_lines (fun line ->
         let n = size () in
         if n = 0 then Buffer.add_string buf "R-"
         else begin
-          let (t', it) = remove !(!t) (at (a1 mod n)) in
+          let (t', it) = remove !(!t) (at (ix a1 n)) in
           !t := t';
           Buffer.add_string buf (Printf.sprintf "R%d" (idx it))
         end
@@ -83,7 +86,7 @@ let () = iter_lines (fun line ->
         let n = size () in
         if n = 0 then Buffer.add_string buf "G-"
         else begin
-          let h1 = a1 mod (n + 1) and h2 = a2 mod (n + 1) in
+          let h1 = ix a1 (n + 1) and h2 = ix a2 (n + 1) in
           let (h1, h2) = if h1 > h2 then (h2, h1) else (h1, h2) in
           let (t', it) = remove_range !(!t) (nat h1) (nat h2) in
           !t := t';
@@ -98,12 +101,39 @@ let () = iter_lines (fun line ->
         !t := t';
         Buffer.add_string buf (Printf.sprintf "K%d" (int n))
       | 'c' -> !t := clear !(!t); Buffer.add_char buf 'C'
+      | 'z' -> !t := empty_tree; Buffer.add_char buf 'Z'
+      | 'f' ->
+        let before = int (cnt !(!t)) in
+        for j = 0 to a1 - 1 do
+          let ((t', _), _) = insert mc st bc lin multi !(!t) (z_of_int (a2 + j * a3)) in
+          !t := t'
+        done;
+        Buffer.add_string buf (Printf.sprintf "F%d" (int (cnt !(!t)) - before))
+      | 'X' ->
+        let n = size () in
+        if n = 0 then Buffer.add_string buf "X-"
+        else begin
+          let h = ix a1 n in
+          let key = List.nth (contents !(!t)) h in
+          let (t1, it) = remove !(!t) (at h) in
+          let (t2, pos) = add mc st bc t1 it key in
+          !t := t2;
+          Buffer.add_string buf (Printf.sprintf "X%d/1" (idx pos))
+        end
+      | 'd' ->
+        let n = size () in
+        if n = 0 then Buffer.add_string buf "D-"
+        else begin
+          let (t', _) = remove !(!t) (at (ix a1 n)) in
+          !t := t';
+          Buffer.add_char buf 'D'
+        end
       | 'x' ->
         let n = size () in
         if n = 0 then Buffer.add_string buf "X-"
         else begin
-          let h = a1 mod n in
-          let key = if na = 2 && a2 >= 0 then a2 else zi (List.nth (contents !(!t)) h) in
+          let h = ix a1 n in
+          let key = if na >= 2 && a2 >= 0 then a2 else zi (List.nth (contents !(!t)) h) in
           let (t', _) = remove !(!t) (at h) in
           !t := t';
           do_insert "X" key
@@ -113,7 +143,7 @@ let () = iter_lines (fun line ->
         let n = List.length l in
         if n = 0 then Buffer.add_string buf "E-"
         else begin
-          let h = a1 mod n and k = a2 in
+          let h = ix a1 n and k = a2 in
           let okk = (h = 0 || ordered (List.nth l (h - 1)) k) && (h + 1 = n || ordered k (List.nth l (h + 1))) in
           if not okk then Buffer.add_string buf "E0"
           else begin !t := reset_key !(!t) (at h) (z_of_int k); Buffer.add_string buf "E1" end
